@@ -16,7 +16,12 @@ func (x *Exec) addrWrites(addr ssa.Value, li *loopInfo) {
 		et := a.Type().(*types.Pointer).Elem()
 		if k, _ := classify(et); a.Heap && k == TStruct {
 			for _, lf := range leavesOf(et) {
-				li.heap[fieldKey(et, lf.Path)] = true
+				if li.blocks[a.Block()] {
+					// object allocated in this iteration: only a fresh object is written
+					li.fresh[fieldKey(et, lf.Path)] = true
+				} else {
+					li.heap[fieldKey(et, lf.Path)] = true
+				}
 			}
 			return
 		}
@@ -39,7 +44,11 @@ func (x *Exec) addrWrites(addr ssa.Value, li *loopInfo) {
 			if k, _ := classify(et); r.Heap && k == TStruct {
 				prefix, lt := leafPrefix(et, sel)
 				for _, lf := range leavesUnder(lt, prefix) {
-					li.heap[fieldKey(et, lf)] = true
+					if li.blocks[r.Block()] {
+						li.fresh[fieldKey(et, lf)] = true
+					} else {
+						li.heap[fieldKey(et, lf)] = true
+					}
 				}
 				return
 			}
@@ -79,9 +88,12 @@ func (x *Exec) addrWrites(addr ssa.Value, li *loopInfo) {
 			return
 		}
 		prefix, lt := leafPrefix(pt.Elem(), sel)
+		var keys []string
 		for _, lf := range leavesUnder(lt, prefix) {
-			li.heap[objKey(pt.Elem(), lf)] = true
+			keys = append(keys, objKey(pt.Elem(), lf))
 		}
+		// precise (this object only) if the pointer turns out to be loop-invariant, type-wide otherwise
+		li.fieldSts = append(li.fieldSts, fieldStore{cur, keys})
 	case *ssa.IndexAddr:
 		if sl, ok := a.X.Type().Underlying().(*types.Slice); ok {
 			if k, _ := classify(sl); k == TScalar {
@@ -364,6 +376,17 @@ func (x *Exec) enterLoop(li *loopInfo, st *State) error {
 				}
 			} else {
 				for _, k := range mapKeys(mo.mt) {
+					addWide(k)
+				}
+			}
+		}
+		for _, fs := range li.fieldSts {
+			if ref, ok := x.invariantRef(li.preSt, fs.root, li, 0); ok {
+				for _, k := range fs.keys {
+					preciseMaps[k] = append(preciseMaps[k], ref)
+				}
+			} else {
+				for _, k := range fs.keys {
 					addWide(k)
 				}
 			}
